@@ -42,7 +42,7 @@ def bound_for(diam_deg):
 def cases(tier, seed):
     rng = np.random.default_rng([seed, 505])
     yield {"kind": "tables"}
-    n = 70 if tier == "quick" else 1400
+    n = 70 if tier == "quick" else 8000
     sizes = [6, 8, 12, 20, 40, 80, 150, 300, 600, 1200, 2500]
     for i in range(n):
         fam = str(rng.choice(["voronoi", "voronoi", "merged", "polyhedron", "cubed_sphere", "latlon_global", "latlon_patch", "clustered"]))
